@@ -55,6 +55,8 @@ def p_node(n, opts=None):
         if n.get("p") is not None:
             return "[p%s:{{ %s }}]" % (n["p"], n["n"])
         return "{{ %s }}" % n["n"]
+    if t == "assign":
+        return "{%% firstof %s as %s %%}" % (p_expr(n["e"]), n["n"])
     if t == "isfilled":
         key = re.sub(r"[^\w]", "_", n["name"])  # documented: characters that cannot be in a variable name become "_"
         if n.get("p") is not None:
@@ -413,10 +415,35 @@ class Interp:
         return self.nodes(self.program["page"]["tpl"], env, None, {}, None)
 
     def nodes(self, nodes, env, owner, prov, parent):
+        return self.nodes_env(nodes, env, owner, prov, parent)[0]
+
+    def nodes_env(self, nodes, env, owner, prov, parent):
+        """-> (output pieces, environment after the list). {% if %} opens no scope of its own in Django, so a name bound
+        inside a branch stays bound after {% endif %}."""
         out = []
         for n in nodes:
+            if n["t"] == "if":
+                self.steps += 1
+                c = self.truthy(self.lookup(env, n["n"]))
+                part, env = self.nodes_env(n["a"] if c else n["b"], env, owner, prov, parent)
+                out.extend(part)
+                continue
+            if n["t"] == "assign":
+                # binds the name in the innermost scope from here on: the REST of this list sees a new innermost layer;
+                # everything captured before (deferred components, fills) keeps the old one
+                v = self.expr(env, n["e"])
+                if v is not WILD and v is not WILD2:
+                    v = v if (isinstance(v, str) and v) else ("" if not v else WILD2)
+                top = env[-1]
+                for held in top.vars.values():
+                    # a name bound in fill content shares the layer of the fill's aliases: like them it may or may not show
+                    # in default content that is rendered through the default alias afterwards (not specified)
+                    if isinstance(held, SlotRefModel) and n["n"] not in held.alias_names:
+                        held.alias_names.append(n["n"])
+                env = env[:-1] + [Layer(dict(top.vars, **{n["n"]: v}), top.kind, top.inst)]
+                continue
             out.extend(self.node(n, env, owner, prov, parent))
-        return out
+        return out, env
 
     def node(self, n, env, owner, prov, parent):
         self.steps += 1
